@@ -91,12 +91,23 @@ class C04(Prop):
             return None
         return {"nodes": n["nodes"], "jd": {str(k): v for k, v in n["jd"]}, "edges": sorted(n["edges"])}
 
+    @staticmethod
+    def _mask(case, rows):
+        """the property pins the annotation of an edge only when its pair occurs once in the edge list: which of several
+        entries annotates a repeated pair is incidental and is not compared between model and implementation"""
+        pairs = collections.Counter(norm(e) for e in case["edges"])
+        return sorted([list(e), "*", "*"] if pairs.get(tuple(e), 0) > 1 else [list(e), t, m] for e, t, m in rows)
+
     def model(self, case, reply, obs):
         back = reply["back"]
         if back != "KeyError":
             rows = sorted(zip([list(norm(e)) for e in back["edges"]], back["topologies"], back["motif_id"]))
-            back = {"rows": [list(r) for r in rows], "jds": back["jds"]}
-        return {"net": self._mnet(reply["net"]), "back": back, "again": self._mnet(reply["again"])}
+            back = {"rows": self._mask(case, rows), "jds": back["jds"]}
+        net, again = self._mnet(reply["net"]), self._mnet(reply["again"])
+        for n in (net, again):
+            if n is not None:
+                n["edges"] = self._mask(case, n["edges"])
+        return {"net": net, "back": back, "again": again}
 
     def project(self, case, obs):
         if "exc" in obs:
@@ -106,11 +117,12 @@ class C04(Prop):
             if n is None:
                 return None
             # node insertion order is compared as is for the forward conversion; jd None = attribute missing
-            return {"nodes": n["nodes"], "jd": {k: v for k, v in n["jd"].items() if v is not None}, "edges": n["edges"]}
+            return {"nodes": n["nodes"], "jd": {k: v for k, v in n["jd"].items() if v is not None},
+                    "edges": self._mask(case, n["edges"])}
         back = obs["back"]
         if back != "KeyError":
             rows = sorted(zip([list(norm(e)) for e in back["edges"]], back["topologies"], back["motif_id"]))
-            back = {"rows": [list(r) for r in rows], "jds": back["jds"]}
+            back = {"rows": self._mask(case, rows), "jds": back["jds"]}
         again = pn(obs["again"])
         if again is not None:
             again["nodes"] = sorted(again["nodes"])
